@@ -7,7 +7,6 @@ import (
 	"fmt"
 	"math/big"
 	"math/rand/v2"
-	"os"
 	"sort"
 	"strings"
 
@@ -453,9 +452,6 @@ func exec(x *fw.Ctx, c Case) {
 		x.Cover("unjudged:" + v.reason)
 		if c.Blk != "random" {
 			x.Cover("unjudged-in:" + c.Blk + ":" + v.reason)
-		}
-		if os.Getenv("C15_DEBUG_UNJUDGED") != "" && c.Blk != "random" && c.Blk != "probe" {
-			fmt.Fprintf(os.Stderr, "UNJUDGED %s %s bind=%q ctl=%.80q args=%.120s\n", c.Blk, v.reason, c.Bind, c.Ctl, showArgs(c.Args))
 		}
 		if v.wantErr != nil {
 			obs["oracle"] = v.wantErr.Error()
